@@ -360,6 +360,48 @@ def check_prepared(pat, graphs3):
     return viols, n
 
 
+MODIFIER_QUERIES = [
+    "SELECT ?s ?o WHERE { ?s ?p ?o } ORDER BY ?s DESC(?o) LIMIT 2",
+    "SELECT ?s ?p ?o WHERE { ?s ?p ?o } ORDER BY DESC(?p) ?o ?s LIMIT 2 OFFSET 1",
+    "SELECT ?x (COUNT(?y) AS ?n) WHERE { ?x ?p ?y } GROUP BY ?x ORDER BY DESC(?n) ?x LIMIT 1",
+    "SELECT DISTINCT ?p ?o WHERE { ?s ?p ?o } ORDER BY ?o ?p LIMIT 3",
+    "SELECT ?x ?y WHERE { ?x <%sp> ?y } ORDER BY ?y" % EX,
+    "SELECT (SUM(?y) AS ?t) (MIN(?y) AS ?m) WHERE { ?x <%sq> ?y } HAVING (COUNT(?y) > 0)" % EX,
+    "SELECT ?x WHERE { ?x ?p ?y FILTER EXISTS { SELECT ?x WHERE { ?x ?p2 ?z } ORDER BY ?x DESC(?z) LIMIT 1 } }",
+]
+
+
+def check_prepared_text(q, graphs):
+    """The same for queries with solution modifiers (C08): ORDER BY with several keys, LIMIT/OFFSET, grouping. Answers are compared as sequences."""
+    viols = []
+    gs = [build(t) for t in graphs]
+
+    def seq_of(g, query):
+        with seams.watchdog(30.0), warnings.catch_warnings():
+            warnings.simplefilter("ignore")
+            return [tuple(sorted((str(v), tkey(t)) for v, t in b.items() if t is not None)) for b in g.query(query).bindings]
+
+    fresh = [seq_of(g, q) for g in gs]
+    n = 0
+    for L in (1, 2, 3, 4):
+        for seq in itertools.product(range(len(gs)), repeat=L):
+            pq = prepareQuery(q)
+            for pos, gi in enumerate(seq):
+                n += 1
+                try:
+                    got = seq_of(gs[gi], pq)
+                except Exception as e:  # noqa: BLE001
+                    viols.append({"sig": "prepared-query|raises|%s|modifiers" % type(e).__name__, "detail": {"query": q, "exc": repr(e)[:200]},
+                                  "case": {"prepared_text": q, "graphs": graphs, "sequence": list(seq)}})
+                    return viols, n
+                if got != fresh[gi]:
+                    viols.append({"sig": "prepared-query|evaluation-%d-differs-from-fresh-parse|modifiers" % (pos + 1),
+                                  "detail": {"query": q, "sequence": list(seq), "got": list(map(repr, got)), "fresh": list(map(repr, fresh[gi]))},
+                                  "case": {"prepared_text": q, "graphs": graphs, "sequence": list(seq)}})
+                    return viols, n
+    return viols, n
+
+
 def check_stores(q, graphs, label):
     viols = []
     n = 0
@@ -511,6 +553,9 @@ def _batch(arg):
         elif kind == "paths":
             v, n = check_path_orders(it, PATH_GRAPHS)
             nontriv += 1
+        elif kind == "prepared-text":
+            v, n = check_prepared_text(it, [GRAPHS[0], GRAPHS[3], GRAPHS[7]])
+            nontriv += 1
         elif kind == "prepared":
             v, n = check_prepared(it, [GRAPHS[0], GRAPHS[3], GRAPHS[7]])
             nontriv += 1
@@ -572,6 +617,7 @@ def run(ctx):
     work += [("functions", [f]) for f in FUNC_FILTERS]
     prep = progs[:: (2 if thorough else 11)]
     work += [("prepared", sh) for sh in R.shards(prep, ctx.jobs * 4)]
+    work += [("prepared-text", [q]) for q in MODIFIER_QUERIES]
     sq = store_queries(thorough)
     work += [("stores", sh) for sh in R.shards(sq, ctx.jobs * 4)]
     res = R.pmap(_batch, work, ctx.jobs)
@@ -609,6 +655,9 @@ def replay(ctx, case):
         triples = [tuple(C04._fix(x) for x in t) for t in case["graph"]]
         v, _ = check_stores(case["store_query"], [triples], case.get("label", "?"))
         return [{"sig": x["sig"], "case": case, "detail": x["detail"]} for x in v if x["case"]["config"] == case["config"]]
+    if "prepared_text" in case:
+        v, _ = check_prepared_text(case["prepared_text"], [[tuple(C04._fix(x) for x in t) for t in g] for g in case["graphs"]])
+        return [{"sig": x["sig"], "case": case, "detail": x["detail"]} for x in v]
     pat = C04._fix(case["pattern"])
     if case["variant"] == "prepared":
         v, _ = check_prepared(pat, [GRAPHS[0], GRAPHS[3], GRAPHS[7]])
